@@ -20,9 +20,8 @@ class Pair(StructType, CastMixin):
     def _parse_input(self, x: np.ndarray):
         # input representation: structured array with fields lo (int32), hi (uint8), hi_null (bool)
         return {
-            "lo": ndx.int32._parse_input(np.ascontiguousarray(x["lo"]).astype(np.int32)),
-            "hi": ndx.nuint8._parse_input(np.ma.masked_array(np.ascontiguousarray(x["hi"]).astype(np.uint8),
-                                                             mask=np.ascontiguousarray(x["hi_null"]))),
+            "lo": ndx.int32._parse_input(np.array(x["lo"], dtype=np.int32)),
+            "hi": ndx.nuint8._parse_input(np.ma.masked_array(np.array(x["hi"], dtype=np.uint8), mask=np.array(x["hi_null"], dtype=bool))),
         }
 
     def _assemble_output(self, fields):
